@@ -24,6 +24,7 @@ import IocProofs.Lemmas.ConcPaths
 import IocProofs.Lemmas.ConcMap
 import IocProofs.Lemmas.ConcLen
 import IocProofs.Lemmas.ConcReg
+import IocProofs.Lemmas.ConcPref
 import IocProofs.Lemmas.SemSync2
 
 namespace Ioc.C20
@@ -456,5 +457,73 @@ theorem C20_close_shared_scratch_race_counterexample (n : Nat) (hn : 2 ≤ n) (e
 -- are complete
 example : reported 3 (fun i => (7 : Nat).testBit i) (schedule closeCfg 3 (fun i => (7 : Nat).testBit i) 200 4 init) = 3 ∧
     (schedule closeCfg 3 (fun i => (7 : Nat).testBit i) 200 4 init).mainPc = 3 := by decide
+
+/-! ### seventh round: the process-wide prefix cache of `syslog.Pref` across Apps; Range against Delete
+
+`plog`: Apps started one after the other in one process, each with its own logger (app.SetLogger → syslog.SetLogger, which
+assigns `_logger`); user scanners and closers log through ONE prefix, `syslog.Pref(p)`, from all goroutines of the parallel
+scan / the parallel Close. -/
+
+/-- The regenerated skeleton of `syslog.Pref` (syslog/log.go:57-62): ONE call on the package-level cache,
+    `prefCache.LoadOrStoreFn`, then `return` — and no assignment to anything but locals of the call: whatever the cache hands
+    out is never written again by `Pref`. -/
+theorem C20_pref_skeleton :
+    skCallsL Facts.syslogPrefSkel = ["prefCache.LoadOrStoreFn", "return"] ∧ skWritesL Facts.syslogPrefSkel = false := by
+  decide
+
+/-- … so the callers of one prefix are callers of one load-or-store. Any number of them, whatever root logger each of them
+    read (`_logger` is read inside the value function), any cache, any schedule: every caller that has returned holds the logger
+    the cache keeps for the prefix — all callers of a phase are handed ONE logger (oracle `pref-two-loggers`). -/
+theorem C20_pref_one_logger (k : Nat) (m0 : MapSt) (queue : Nat → List Op)
+    (hq : ∀ t op, op ∈ queue t → ∃ v, op = .loadOrStoreFn k v) (sched : List Nat) :
+    ∀ e, e ∈ (run factProgs (Sys.start m0 queue) sched).hist →
+      ∃ w l, e.2.2 = .got (some w) l ∧ (run factProgs (Sys.start m0 queue) sched).map k = some w :=
+  C20_getMetaOrRegister_one_definition k m0 queue hq sched
+
+/-- The cache outlives the App: once a logger `w` is cached for the prefix, every later caller — any number, any schedule,
+    whatever root logger has been installed since (the value `v` each caller would derive) — is handed `w`, and the cache
+    still holds `w` afterwards. This is what the code does today across Apps (the observation of `plog`: the lines of App 2
+    reach the logger of App 1); it is stated here as a fact about the code, not as something C20 demands. -/
+theorem C20_pref_cached_logger_kept (k w : Nat) (m0 : MapSt) (h0 : m0 k = some w) (queue : Nat → List Op)
+    (hq : ∀ t op, op ∈ queue t → ∃ v, op = .loadOrStoreFn k v) (sched : List Nat) :
+    (run factProgs (Sys.start m0 queue) sched).map k = some w ∧
+    ∀ e, e ∈ (run factProgs (Sys.start m0 queue) sched).hist → ∃ l, e.2.2 = .got (some w) l := by
+  have hex := C20_loadOrStoreFn_linearizable m0 queue (fun t op h => Or.inr (let ⟨v, hv⟩ := hq t op h; ⟨k, v, hv⟩)) sched
+  have hops := hist_ops_from_queue factProgs (fun op => ∃ v, op = .loadOrStoreFn k v) sched (Sys.start m0 queue) hq
+    (by intro t c hc; simp [Sys.start] at hc) (by intro e he; simp [Sys.start] at he)
+  have hk := seq_cached_stays k w m0 h0 _ _ hex hops
+  refine ⟨hk, fun e he => ?_⟩
+  obtain ⟨w', l, hr, hw'⟩ := seq_all_kept k m0 _ _ hex hops e he
+  rw [hk] at hw'
+  cases hw'
+  exact ⟨l, hr⟩
+
+/-- What refreshing the shared cache entry IN PLACE would do (`refreshStep`: a caller that finds the entry derived from
+    another root writes `entry.root`, then `entry.logger`, without a lock): entry {root 1, logger 1}, the root logger is now 2,
+    two callers. Schedule: caller 0 finds the entry stale and writes the root; caller 1 now finds the root up to date and is
+    handed the OLD logger; caller 0 writes and returns the new one. Two callers of one phase, two loggers — and caller 1 read
+    `entry.root` while caller 0 was between its two writes (a conflicting access with nothing ordering them). -/
+theorem C20_pref_refresh_in_place_counterexample :
+    let s := refreshRun 2 [0, 0, 1, 0] (⟨1, 1⟩, fun _ => .start)
+    s.2 0 = .done 2 ∧ s.2 1 = .done 1 ∧
+    (refreshRun 2 [0, 0] (⟨1, 1⟩, fun _ => .start)).2 0 = .wroteRoot ∧ (refreshRun 2 [0, 0] (⟨1, 1⟩, fun _ => .start)).2 1 = .start := by
+  decide
+
+-- the run the driver makes for `plog 3 2 2 1 3 …`: three Apps, the prefix first used by App 1's scan: every phase of every
+-- App is handed the logger derived from root 1; `plog 4 1 2 2 2 …`: first used by the closers of App 2
+example : plogObs 3 2 2 1 3 = (["1", "1", "1"], ["1", "1", "1"]) := by decide
+example : plogObs 4 1 2 2 2 = (["-", "-", "-", "-"], ["-", "2", "2", "2"]) := by decide
+-- the hypotheses of C20_pref_one_logger / C20_pref_cached_logger_kept hold for the queues of a phase
+example : ∀ t op, op ∈ prefQueues 3 2 t → ∃ v, op = .loadOrStoreFn 1 v := by
+  intro t op h
+  unfold prefQueues at h
+  split at h
+  · simp only [List.mem_singleton] at h; exact ⟨2, h⟩
+  · simp at h
+
+/-- `rdel` / oracle `range-phantom-pair`: C20_range_regular — every pair a Range reports was the key's value at some point of
+    the run — is what the oracle evaluates on the real map. The run the driver makes (two rangers, two store/delete rounds):
+    no Range reports a pair nobody stored, none reports a key twice, none misses a permanent key. -/
+example : rdelObs 2 2 = (0, 0, 0) := by decide
 
 end Ioc.C20
